@@ -48,11 +48,20 @@ def rules(ck, P='C03'):
     # every return of decap carrying CompletedPkt happens in a world whose decoded packet kind is complete or end.
     sites = {}
     for b in f.non_derived():
+        if b.def_kind.startswith('Ctor'):
+            continue          # the constructor function itself; its uses are the calls counted below
         for blk in b.blocks:
             for st in blk['stmts']:
                 if st['s'] == 'assign' and st['rv']['r'] == 'aggregate' and st['rv'].get('adt') == DS and st['rv'].get('variant') == v_completed:
                     sites.setdefault(b.key, 0)
                     sites[b.key] += 1
+            t_ = blk['term']
+            if t_['t'] == 'call':
+                for o_ in [t_['func']] + list(t_['args']):
+                    fj = o_.get('fn') if isinstance(o_, dict) else None
+                    if fj and (fj.get('resolved') or fj['name']) == DS + '::CompletedPkt':
+                        sites.setdefault(b.key, 0)          # constructor called / passed as a function value
+                        sites[b.key] += 1
     ck.rule(f'{P}.R1 construction sites of DecapStatus::CompletedPkt', sum(sites.values()), 2)
     a = decap_analysis(ck)
     reached = a.I.stats['functions']
